@@ -30,7 +30,8 @@ BOUNDS = {
              '0 < d < timeout, or stalls inside an AUTH challenge; commands '
              'before the stall arrive at symbolic instants; relay: the peer '
              'goes silent (or trickles its reply) at every stage of an SMTP '
-             'or LMTP conversation, PIPELINING on/off, also on the second '
+             'or LMTP conversation (also after the EHLO-500 -> HELO fallback), '
+             'PIPELINING on/off, also on the second '
              'message of a reused connection; the same with the peer refusing '
              'the sender / every recipient / the first recipient (4xx or 5xx) '
              'and answering DATA with 354 or 503 before it goes silent at '
@@ -65,6 +66,9 @@ def cells(tier):
                         'n': 1})
     out.append({'kind': 'relay_stall', 'lmtp': 0, 'pipe': 1, 'n': 2,
                 'reuse': 1})
+    # EHLO refused with 500: the HELO fallback and what follows it
+    out.append({'kind': 'relay_stall', 'lmtp': 0, 'pipe': 0, 'n': 1,
+                'helo': 1})
     for lmtp in (0, 1):
         for pipe in (0, 1):
             out.append({'kind': 'relay_reject_stall', 'lmtp': lmtp,
@@ -297,6 +301,8 @@ def run_relay_stall(cell):
     stages = [('banner', 0), ('LHLO' if lmtp else 'EHLO', 0), ('MAIL', 0)] + \
         [('RCPT', i) for i in range(n)] + [('DATA', 0)] + \
         [('EOD', i) for i in range(n if lmtp else 1)]
+    if cell.get('helo'):
+        stages[1] = ('HELO', 0)
     which_msg = api.choice('msg', 2) if cell.get('reuse') else 0
     f = api.choice('stall_stage', len(stages) if not which_msg
                    else len(stages) - 2)
@@ -305,6 +311,8 @@ def run_relay_stall(cell):
     if which_msg and fault[0] == 'RCPT':
         idx = fault[1] + n
     over = {(fault[0], idx): ('stall',)}
+    if cell.get('helo'):
+        over[('EHLO', None)] = ('reply', '500', ['unknown command'])
     ext = ('PIPELINING', '8BITMIME') if pipe else ('8BITMIME',)
     peers = []
 
